@@ -504,13 +504,14 @@ def run(ctx, only_cases=None):
                    "VisionGraphSize, projectorMemoryRequirements): those functions are oracles, not modelled",
                    "Go harness harness/cmd/c16 and overlay exports in harness/overlay/llm/c16.go (add-only, build tag verif)",
                    "python case generator and monitor (props/c16.py)"]
-    ctx.assumptions = ["size theorems assume no uint64 operation of the estimator wraps (r_ok = true); guaranteed when the exact total demand is below 2^64",
+    ctx.assumptions = ["size theorems assume no uint64 operation of the estimator wraps (r_ok = true); proved (C16_no_wrap_below_2_64) to hold whenever the sizes read "
+                       "from the file add up without wrapping and the explicit demand expression of the inputs is below 2^64",
                        "flash attention / KV cache quantisation is off (OLLAMA_FLASH_ATTENTION unset): it only changes the KV sizes returned by GraphSize",
                        "fit soundness is read under the num_gpu cap (num_gpu >= 0: all layers up to the cap)"]
     ctx.proof_stage(["Mem"], "Mem/Properties_C16.v", extra_targets=["Mem/Corr.v"],
                     expect_theorems=["C16_per_gpu_bound", "C16_per_gpu_bound_refuted", "C16_layers_le_model_and_limit", "C16_split_sums",
                                      "C16_total_ge_vram", "C16_total_ge_vram_refuted", "C16_fit_sound", "C16_unadmitted_gpu_gets_nothing",
-                                     "C16_by_library_partition"])
+                                     "C16_by_library_partition", "C16_no_wrap_below_2_64", "C16_bytes_below_2_64"])
     if not ctx.quick():
         ctx.coqchk(["V.Mem.Properties_C16", "V.Mem.Corr"])
     binp = ctx.go_build("c16")
@@ -657,7 +658,8 @@ MANIFEST = {
         "category": "proof",
         "text": "Coq theorems over a loop-for-loop model of llm.EstimateGPULayers / PredictServerFit (any number of GPUs, any layer-size profile, any "
                 "options): per-GPU allocation <= free - overhead, layers <= blocks+1 and <= num_gpu, split sums to the layer count, total >= VRAM, "
-                "declared fit only if all layers (up to the num_gpu cap) were placed; size theorems under an explicit no-uint64-wrap hypothesis. "
+                "declared fit only if all layers (up to the num_gpu cap) were placed; the two byte-count theorems hold for every input whose explicit total demand "
+                "is below 2^64 (no uint64 wrap-around; the unguarded statements are refuted in Coq and recorded as a known finding). "
                 "The model is tied to the code by a differential run on generated GGUF models and GPU lists evaluated inside Coq with vm_compute; "
                 "the property's clauses are also monitored directly on the real MemoryEstimate.",
         "design_ref": "DESIGN.md section 5, C16",
